@@ -4,7 +4,7 @@ semantic stress patterns, non-ASCII/CRLF injection and the vendored corpus."""
 from . import gen
 
 PRELUDE = ("class A; class B<int x, int y = 1> { int f = x; } class Foo { int v1; string _t; } class Bar : Foo { let v1 = 2; }\n"
-           "def Inst; def Reg : Bar; multiclass M<int i> { def _q { int y = i; } } defvar v1 = 1; defset list<A> x = { def i : A; }\n")
+           "def Inst; def Reg : Bar; multiclass M<int i> { def _q { int y = i; } } defvar v1 = 1; defset list<A> x = { def i : A; } def : Foo { int af = 1; } defm : M<1>; defm m : M<2>;\n")
 
 STRESS = [
     # self / mutual references
@@ -14,6 +14,11 @@ STRESS = [
     "multiclass M { defm x : M; } defm y : M;", "multiclass M : M { def a; } defm z : M;", "multiclass M<int i> : N<i>; multiclass N<int j> : M<j>; defm q : M<1>;",
     "defvar a = a;", "defvar a = b; defvar b = a;", "class C { int x = x; }", "class C<int x = x> { int y = x; }",
     "def d : d;", "def d { d f = d; }", "defset list<S> S = { def s : S; }", "defset list<A> S = { defset list<A> S = { def q; } }",
+    # names the indexer makes up itself (anonymous records, records instantiated by defm), spelled out by the user
+    "class Foo; def : Foo; def user { Foo f = anonymous_0; }",
+    "class Foo; multiclass M { def _x; } def anonymous_1 : Foo; defm : M; def : Foo { int n = 1; } def user { Foo f = anonymous_1; list<Foo> l = [anonymous_1, anonymous_0]; }",
+    "class Reg; multiclass MC { def _lo : Reg; } defm D : MC; class Use<int n, Reg r = D_lo>; def X : Use<1, D_lo> { Reg q = D_lo; }",
+    "def { int w = 1; } def { int w = 2; } defvar a = anonymous_0; defvar b = anonymous_1.w; def anonymous_0; defvar c = anonymous_0;",
     # redefinitions and shadowing
     "class A; class A; class A { int a; } def A; def A : A; defvar A = 1; multiclass A { def A; } defm A : A;",
     "class R<int a, int a> { int a = a; let a = a; } def r : R<1, 2> { let a = a; int a = 3; }",
